@@ -104,16 +104,16 @@ theorem code_ok (cfg : Cfg) (op : Op) (hk : Bool) : Sim cfg (code cfg op) ⟨[],
     cases hrec : cfg.record <;> cases dirty <;>
       simp [flushCode, ga, Sim, guardOn, absAct, Lock.rank, hrec, Abs.final]
   | update f r =>
-    obtain ⟨kind, w, h, rec, tr⟩ := cfg
+    obtain ⟨kind, w, h, rec, tr, tl⟩ := cfg
     cases r <;> cases kind <;> cases rec <;> cases hk <;>
       simp [code, printBody, hookCode, frameCode, flushCode, refreshCode, ga, gh, Sim, guardOn, absAct, Lock.rank, Abs.final]
   | stop =>
-    obtain ⟨kind, w, h, rec, tr⟩ := cfg
-    cases kind <;> cases rec <;> cases tr <;> cases hk <;>
+    obtain ⟨kind, w, h, rec, tr, tl⟩ := cfg
+    cases kind <;> cases rec <;> cases tr <;> cases tl <;> cases hk <;>
       simp [code, printBody, hookCode, frameCode, flushCode, refreshCode, stopCode, ctlCode, ga, gh, Sim, guardOn,
         absAct, Lock.rank, Abs.final]
   | _ =>
-    obtain ⟨kind, w, h, rec, tr⟩ := cfg
+    obtain ⟨kind, w, h, rec, tr, tl⟩ := cfg
     cases kind <;> cases rec <;> cases hk <;>
       simp [code, printBody, hookCode, frameCode, flushCode, refreshCode, startCode, ctlCode, nestedCode, ga, gh, Sim, guardOn,
         absAct, Lock.rank, Abs.final]
